@@ -207,3 +207,20 @@ Proof.
   - intros m -> a [<-|[]]. auto.
   - left; reflexivity.
 Qed.
+
+(* the trace determines the value: evaluating C1 on a cache where B1 is cached
+   reads B1 and A3 only, so changing the (stale) entries of A1, A2 and the range
+   changes nothing — and changing A3 does *)
+Definition g_c1 : cache := fun m => match m with 0 => VInt 1 | 1 => VInt 2 | 2 => VInt 5 | 4 => VInt 7 | _ => VNone end.
+Definition g_c2 : cache := fun m => match m with 0 => VInt 100 | 1 => VInt 200 | 2 => VInt 5 | 3 => VInt 9 | 4 => VInt 7 | _ => VNone end.
+Example g_determines :
+  snd (eval_traced gW g_sem 7 g_c1 5) = [(5, 4); (5, 2)]
+  /\ snd (eval gW g_sem 7 g_c2 5) = snd (eval gW g_sem 7 g_c1 5)
+  /\ snd (eval gW g_sem 7 g_c1 5) = VInt 17
+  /\ snd (eval gW g_sem 7 (upd g_c1 2 (VInt 6)) 5) = VInt 18.
+Proof.
+  split; [vm_compute; reflexivity|]. split; [|vm_compute; split; reflexivity].
+  apply (trace_determines gW g_sem 7 g_c1 g_c2 5); [reflexivity|].
+  intros r d H. assert (E: snd (eval_traced gW g_sem 7 g_c1 5) = [(5, 4); (5, 2)]) by (vm_compute; reflexivity).
+  rewrite E in H. destruct H as [H|[H|[]]]; injection H as <- <-; reflexivity.
+Qed.
